@@ -38,6 +38,16 @@ def run(ctx, chk):
                        "%s [%s] leaves a trace: state becomes (%s, %s, %s) with %d stores through self" % (what, cfg, c.post_sid, c.post_s, c.post_D, len(c.stores)),
                        sample={"path": what, "post_state": [c.post_sid, c.post_s, c.post_D], "stores": len(c.stores)})
         chk.ob(nrej >= 20 and ncell >= 20, "C17/floor/%d/%d" % (nrej, ncell), "too few paths examined [%s]: %d rejected, %d sequencing/unfragmented" % (cfg, nrej, ncell))
+        # (2b) every rejection for the *form* of a line must happen in the grammar, before the state
+        # machine runs: a value the decoder's callee does not accept (unarmor's fill count 0..5)
+        # reaching it from parse() means a malformed line is rejected only after the group state
+        # has been updated
+        for site, o in sorted(fsm.m.I.obl.items(), key=lambda x: repr(x[0])):
+            if o.kind.startswith("precondition of"):
+                chk.ob(not o.failures, "C17/late-form-rejection/%s" % o.kind.replace(" ", "_"),
+                       "%s is not established by the sentence grammar [%s]: a line with such a field is rejected by the callee, after parse() has already changed the parser state (%s)" % (
+                           o.kind, cfg, o.failures[0][0] if o.failures else ""),
+                       sample={"precondition": o.kind, "status": "guaranteed by the grammar"})
         # (3) no shared state
         chk.ob(not f.statics, "C17/statics/%d" % len(f.statics), "the crate defines static items [%s]: %r" % (cfg, f.statics[:3]))
         root = [b for b in f.bodies.values() if b["def"].endswith("::parse") and b.get("impl_self", "").endswith("AisParser")][0]
